@@ -79,8 +79,8 @@ func main() {
 			return
 		}
 
-		if len(t) > 0 {
-			n := t[0]
+		for _, n := range t {
+			n = n.STRewrite(node.SymTbl{})
 			if err := node.Compile(n, cr, false); err != nil {
 				fmt.Println(err)
 				return
